@@ -80,7 +80,16 @@ def _frag_sizes(rng, body_len, maxfrag):
     return out or [1]
 
 # ------------------------------------------------------------------ plans
-def gen_plan(rng, cd, thorough, ts_wrap=False, nitems=None, big_ok=True):
+def gen_plan(rng, cd, thorough, ts_wrap=False, nitems=None, big_ok=True, sr_first=True):
+    plan, npk = _gen_plan(rng, cd, thorough, ts_wrap, nitems, big_ok)
+    if sr_first:      # inside the guard: every sender report precedes the media (one clock base per stream)
+        pairs = list(zip(plan[4], npk))
+        pairs.sort(key=lambda p: 0 if p[0][0] == 3 else 1)
+        plan[4] = [p[0] for p in pairs]
+        npk = [p[1] for p in pairs]
+    return plan, npk
+
+def _gen_plan(rng, cd, thorough, ts_wrap=False, nitems=None, big_ok=True):
     clock = rng.choice([90000] * 6 + [rng.choice([1, 1000, 8000, 44100, 48000, 27000000, 2**31 - 1]), rng.randint(1, 2**31 - 1)])
     if cd == AAC:
         clock = rng.choice([8000, 11025, 16000, 22050, 32000, 44100, 44100, 48000, 48000, 96000, rng.randint(1, 400000)])
@@ -273,6 +282,21 @@ def run(ck):
         cases = with_wire(ck, plans)
         ck.stream("rearranged", cases, "C06_run", "C06", "C06_ok", nontrivial=nontrivial,
                   sig=lambda c, e, o: "depack-rearranged-" + ("h264", "h265", "aac")[c[0][0]], sample=2)
+        # known finding, replayed every run: a sender report after media has started rebases the clock
+        plans = []
+        for i in range(40 if T else 8):
+            cd = (H264, H265, AAC)[i % 3]
+            plan, npk = gen_plan(rng, cd, T, nitems=5, big_ok=False, sr_first=False)
+            data = [(it, n) for it, n in zip(plan[4], npk) if it[0] != 3] or [([0, 1000, 1, gen_unit(rng, cd, 9) if cd != AAC else b"\x01\x02"], 1)]
+            cut = rng.randint(1, len(data))
+            sr = ([3, rng.randint(1, 2**32 - 1), 1, 2], 1)
+            pairs = data[:cut] + [sr] + data[cut:]
+            plan[4] = [p[0] for p in pairs]
+            plans.append(plan + [[0, [1] * sum(p[1] for p in pairs)]])
+        plans.append([H264, 90000, 0, 1, [[0, 93600, 1, bytes([0x41, 1, 2])], [3, 2**31, 0, 0], [0, 97200, 1, bytes([0x41, 3, 4])]], [0, [1, 1, 1]]])
+        cases = with_wire(ck, plans)
+        ck.stream("sr_late", cases, "C06_run", "C06", "C06_ok", nontrivial=nontrivial,
+                  sig=lambda c, e, o: "pts-rebase-at-first-sr" if e == o else "sr-late-stream-other", sample=1)
         # D10 witness, replayed on the implementation every run: the RTP timestamp wraps inside the stream
         plans = []
         for i in range(30 if T else 6):
@@ -299,7 +323,8 @@ def run(ck):
              "positions, timestamps with zero / negative / large steps; the packet bytes come from the Gallina packetisers; "
              "selection = no loss (40%), random loss, losses aimed at start/middle/end of fragmented units, bursts, plus every "
              "single and double loss position of a 9-fragment unit; a second stream rearranges packets (swap, duplicate, late, "
-             "drop); a third stream crosses the 32-bit timestamp wrap (known finding D10). non-trivial = at least two items, "
+             "drop); a third stream puts a sender report behind media (known finding pts-rebase-at-first-sr), a fourth crosses the "
+             "32-bit timestamp wrap (known finding D10). non-trivial = at least two items, "
              "one of them aggregated or fragmented",
         trusted=["pion/rtp Header.Unmarshal and rtp.ReadPacket framing are exercised by the correspondence, not modelled",
                  "binary64 arithmetic of syncclock.go is modelled exactly in integers (C06SyncClock.v); the Go compiler's "
@@ -308,5 +333,6 @@ def run(ck):
         assumptions=["FrameWriter never returns an error", "one medium per modelled stream (video or audio) with its control channel",
                      "DTS is not constrained by the property and not compared",
                      "H.264 filler-data NAL units (type 12) are discarded by writeFrame on purpose; the specification filters them",
-                     "guards: RTP timestamps do not wrap within the stream (no_ts_wrap, known finding D10); at most 65536 packets "
+                     "guards: RTP timestamps do not wrap within the stream (no_ts_wrap, known finding D10); every sender report precedes the "
+                     "media (sr_before_data, known finding pts-rebase-at-first-sr); at most 65536 packets "
                      "per stream for the loss theorem (sequence numbers distinct)"])
